@@ -488,6 +488,9 @@ def binop(run, op, a, b, node):
         if a.ty is TInt and b.ty is TInt:
             run.implicit_raise(b.t != 0, "ZeroDivisionError", node)
             return Val(TInt, a.t % b.t)
+    if isinstance(op, ast.BitAnd) and a.ty is TInt and b.ty is TInt:
+        # integer bit mask: an uninterpreted function of both operands (flags are only ever tested against constants)
+        return Val(TInt, uf("int_bitand", I, I, I)(a.t, b.t))
     if isinstance(op, ast.BitOr) and isinstance(a.ty, TSet) and a.ty == b.ty:
         ty = a.ty
         k = z3.FreshConst(ty.k.sort(), "k")
